@@ -53,7 +53,11 @@ fn accepting<const N: usize, const MAXD: usize>() {
     cover!(total == 2 && d == 48, "two descriptors of 48");
     cover!(total == 1 && d == 40, "one descriptor of 40");
     vassert!(i == total, "exactly L/d descriptors");
+    // polling an exhausted iterator changes nothing: still exhausted, still nothing to come
+    vassert!(it.len() == 0, "len() is 0 once exhausted");
     vassert!(it.next().is_none(), "stays exhausted");
+    vassert!(it.len() == 0 && it.size_hint() == (0, Some(0)), "len()/size_hint() stay 0 after polling an exhausted iterator");
+    vassert!(it.next().is_none(), "stays exhausted (second poll)");
 }
 
 fn rejecting<const N: usize, const MAXD: usize>() {
